@@ -680,12 +680,10 @@ pub fn connect<'a, E: Copy + Debug>(
     term1: &'a RefCell<Terminal<'a, E>>,
     term2: &'a RefCell<Terminal<'a, E>>,
 ) {
-    let mut term1_borrow = term1.borrow_mut();
-    let mut term2_borrow = term2.borrow_mut();
-    term1_borrow.disconnect();
-    term2_borrow.disconnect();
-    term1_borrow.other = Some(term2);
-    term2_borrow.other = Some(term1);
+    term1.borrow_mut().disconnect();
+    term2.borrow_mut().disconnect();
+    term1.borrow_mut().other = Some(term2);
+    term2.borrow_mut().other = Some(term1);
 }
 ///Data that are sent between terminals: A timestamp, an optional command, and a state.
 #[cfg(feature = "devices")]
